@@ -190,6 +190,25 @@ def r04_3(ctx, S, prog, crate):
     # elapsed updates
     el = S.local_by_class("elapsed")
     writes = [(bi, si, s) for bi, si, s in b.stmts() if s["k"] == "assign" and s["p"]["l"] in el and not s["p"]["proj"] and bi in S.loop["body"]]
+    # a single `elapsed = <value chosen on two arms>` (e.g. the result of a helper spliced in by lib.inline, or of an
+    # if-expression): the two definitions of that value are the two updates
+    for _ in range(3):
+        if len(writes) == 1 and writes[0][2]["rv"]["k"] == "use" and writes[0][2]["rv"]["o"]["k"] in ("copy", "move") and not writes[0][2]["rv"]["o"]["p"]["proj"]:
+            x_ = writes[0][2]["rv"]["o"]["p"]["l"]
+            alld = b.prov.defs.get(x_, [])
+            dfs = [d for d in alld if ((d[0] == "S" and not d[3]["p"]["proj"]) or d[0] == "C") and d[1] in S.loop["body"]]
+            if len(dfs) >= 1 and len(dfs) == len(alld):
+                nw = []
+                for d in dfs:
+                    if d[0] == "S":
+                        nw.append((d[1], d[2], d[3]))
+                    else:
+                        # defined by a call: the update is that call's result
+                        dest = b.call_at(d[1]).dest
+                        nw.append((d[1], -1, {"k": "assign", "p": dest, "rv": {"k": "use", "o": {"k": "move", "p": dest}}, "span": b.call_at(d[1]).span, "_call": b.call_at(d[1])}))
+                writes = nw
+                continue
+        break
     if not ctx.check(len(writes) == 2, "R04.3", [b.path, "two-elapsed-updates"], "elapsed updates in the loop: %d" % len(writes), b.where(S.loop["header"])):
         return
     # the switch on initial_start's discriminant
@@ -205,6 +224,8 @@ def r04_3(ctx, S, prog, crate):
     for wbi, wsi, s in writes:
         srcs = b.prov._rv(s["rv"], (), frozenset(), wbi, wsi)
         dw = direct_place(b, s["rv"]["o"]) if s["rv"]["k"] == "use" else None
+        if s.get("_call") is not None:
+            dw = ("call", s["_call"])
         if dw and dw[0] == "place" and not (1 <= dw[1] <= b.arg_count):
             dfs = b.prov.defs.get(dw[1], [])
             if len(dfs) == 1 and dfs[0][0] == "C":
@@ -254,6 +275,8 @@ def r04_3(ctx, S, prog, crate):
             ctx.check(wbi in b.reach([none_t], avoid=[some_t, S.loop["header"]]) and wbi not in b.reach([some_t], avoid=[none_t, S.loop["header"]]), "R04.3",
                       [b.path, "timed-only-on-None-arm"], "the skip_ext_time elapsed update is not on the initial_start = None arm", b.where(wbi))
             d = direct_place(b, s["rv"]["o"]) if s["rv"]["k"] == "use" else None
+            if s.get("_call") is not None:
+                d = ("call", s["_call"])
             ok = d is not None and d[0] == "call" and d[1].callee == "core::num::saturating_add"
             if ctx.check(ok, "R04.3", [b.path, "timed-accumulates"], "the skip_ext_time update is not elapsed.saturating_add(progress)", b.where(wbi)):
                 c = d[1]
